@@ -8,6 +8,7 @@ import (
 	"context"
 	"fmt"
 	"io"
+	"log"
 	"log/slog"
 	"net"
 	"net/http"
@@ -69,12 +70,61 @@ type StatRec struct {
 }
 
 type Recorder struct {
-	sim   *Sim
-	mu    sync.Mutex
-	Repo  []RepoWrite
-	Sel   []SelCall
-	Stats []StatRec
-	Recov []RepoWrite // recovery callbacks (Name/URL/At/Step used)
+	sim       *Sim
+	mu        sync.Mutex
+	Repo      []RepoWrite
+	Sel       []SelCall
+	Stats     []StatRec
+	Recov     []RepoWrite // recovery callbacks (Name/URL/At/Step used)
+	Metrics   []MetricRec
+	SrvErrors []string // net/http server error log (recovered handler panics end up here)
+}
+
+// MetricRec is one result of the real metrics extractor (recording decorator).
+type MetricRec struct {
+	Provider                      string
+	Nil                           bool
+	TPS                           float32
+	In, Out, Total, TTFT, TotalMs int32
+	ChunkLen                      int
+}
+
+type recMetrics struct {
+	ports.MetricsExtractor
+	rec *Recorder
+}
+
+func (m *recMetrics) note(pm *domain.ProviderMetrics, provider string, n int) {
+	r := MetricRec{Provider: provider, Nil: pm == nil, ChunkLen: n}
+	if pm != nil {
+		r.TPS, r.In, r.Out, r.Total, r.TTFT, r.TotalMs = pm.TokensPerSecond, pm.InputTokens, pm.OutputTokens, pm.TotalTokens, pm.TTFTMs, pm.TotalMs
+	}
+	m.rec.mu.Lock()
+	m.rec.Metrics = append(m.rec.Metrics, r)
+	m.rec.mu.Unlock()
+}
+
+func (m *recMetrics) ExtractMetrics(ctx context.Context, body []byte, h http.Header, provider string) *domain.ProviderMetrics {
+	pm := m.MetricsExtractor.ExtractMetrics(ctx, body, h, provider)
+	m.note(pm, provider, len(body))
+	return pm
+}
+
+func (m *recMetrics) ExtractFromChunk(ctx context.Context, chunk []byte, provider string) *domain.ProviderMetrics {
+	pm := m.MetricsExtractor.ExtractFromChunk(ctx, chunk, provider)
+	m.note(pm, provider, len(chunk))
+	return pm
+}
+
+type errLogWriter struct{ rec *Recorder }
+
+func (w errLogWriter) Write(p []byte) (int, error) {
+	w.rec.mu.Lock()
+	if len(w.rec.SrvErrors) < 50 {
+		w.rec.SrvErrors = append(w.rec.SrvErrors, string(p))
+	}
+	w.rec.mu.Unlock()
+	return len(p), nil
 }
 
 // recRepo decorates the repository: logs writes, delegates everything.
@@ -392,7 +442,7 @@ func BuildStack(s *Sim, p *Plan) (*Stack, error) {
 		Profile: cfg.Proxy.Profile}
 	var mx ports.MetricsExtractor
 	if ex, err := metrics.NewExtractor(pf, lg); err == nil {
-		mx = ex
+		mx = &recMetrics{MetricsExtractor: ex, rec: st.Rec}
 	}
 	st.Proxy, err = proxy.NewFactory(st.Collector, mx, lg).Create(cfg.Proxy.Engine, &repoDiscovery{repo: repoProxy}, st.Selector, pcfg)
 	if err != nil {
@@ -408,6 +458,7 @@ func BuildStack(s *Sim, p *Plan) (*Stack, error) {
 	mux := http.NewServeMux()
 	st.App.GetRouteRegistry().WireUpWithSecurityChain(mux, st.App.GetSecurityAdapters())
 	st.Srv = &http.Server{Handler: mux, ReadTimeout: cfg.Server.ReadTimeout, WriteTimeout: cfg.Server.WriteTimeout, IdleTimeout: cfg.Server.IdleTimeout}
+	st.Srv.ErrorLog = log.New(errLogWriter{st.Rec}, "", 0)
 	st.connState = map[net.Conn]http.ConnState{}
 	st.Srv.ConnState = func(c net.Conn, cs http.ConnState) {
 		st.connMu.Lock()
